@@ -322,6 +322,10 @@ class OutputAsync(addons.AddonAsync, block.SBlock):
         self.set_output(0)
 
     def stop(self) -> None:
+        if not self.is_initialized():
+            # the simulation is being stopped before this block got initialized (e.g. a shutdown
+            # during the asynchronous initialization); stop_data processing needs a valid counter
+            self.set_output(0)
         # do not compare self._ctrl_coro using "is" (descriptors are in play)
         # pylint: disable-next=comparison-with-callable
         if self._stop_data is not None and self._ctrl_coro != self._ctrl_start:
